@@ -2,6 +2,7 @@ package props
 
 import (
 	"fmt"
+	"github.com/beevik/etree"
 
 	saml2 "github.com/russellhaering/gosaml2"
 	"github.com/russellhaering/gosaml2/types"
@@ -170,6 +171,98 @@ func runC04(c *mon.Ctx) {
 		ai, aerr := sp.RetrieveAssertionInfo(sim.Encode(doc, sim.RawLevel))
 		if aerr == nil && ai.ResponseSignatureValidated != resp.SignatureValidated {
 			cs.Violation("summary-flag-differs", "AssertionInfo.ResponseSignatureValidated=%v but Response.SignatureValidated=%v", ai.ResponseSignatureValidated, resp.SignatureValidated)
+		}
+	}
+
+	// a trusted Response signature over top-level assertions of which some carry their own signature and some do
+	// not, the first of them holding a further, individually signed assertion inside Advice (an IdP relaying evidence):
+	// an assertion's indicator speaks about that very element
+	nn := c.N(240, 8000)
+	for k := 0; k < nn; k++ {
+		cs := c.Begin("nested-signed-assertion-in-advice", k)
+		if cs == nil {
+			continue
+		}
+		r := cs.Rand()
+		signer := pick(r, w.IdP)
+		na := 2 + r.IntN(2)
+		rec := sim.GenuineResponse(w.Env, na)
+		for i, a := range rec.Assertions {
+			a.ID = sim.S(fmt.Sprintf("_top%d-%08x", i, r.Uint32()))
+		}
+		base, err := sim.BuildResponse(rec, sim.PlainStyle())
+		if err != nil {
+			cs.Inconclusive("simulator-error")
+			continue
+		}
+		d, err := sim.ParseDoc(base)
+		if err != nil {
+			cs.Inconclusive("simulator-error")
+			continue
+		}
+		tops := sim.ChildrenNS(d.Root(), sim.NSA, "Assertion")
+		ownSig := make([]bool, len(tops))
+		host := r.IntN(len(tops) - 1) // an assertion that is not the last one hosts the nested evidence
+		nestedN := 1 + r.IntN(2)
+		for j := 0; j < nestedN; j++ {
+			nested := sim.GenuineAssertion(w.Env, fmt.Sprintf("_nested%d-%08x", j, r.Uint32()))
+			nested.Sig = sim.DefaultSig(signer.Key, signer)
+			nel, err := sim.AssertionElement(nested)
+			if err != nil {
+				continue
+			}
+			adv := sim.Wrapper("saml", sim.NSA, "Advice", nel)
+			idx := len(tops[host].Child)
+			for i, ch := range tops[host].Child {
+				if e, ok := ch.(*etree.Element); ok && (e.Tag == "AuthnStatement" || e.Tag == "AttributeStatement") {
+					idx = i
+					break
+				}
+			}
+			tops[host].InsertChildAt(idx, adv)
+		}
+		for i, t := range tops {
+			if r.IntN(2) == 0 && i != len(tops)-1 || i == host && r.IntN(2) == 0 {
+				if err := sim.SignElementInDoc(t, sim.DefaultSig(signer.Key, signer)); err == nil {
+					ownSig[i] = true
+				}
+			}
+		}
+		if err := sim.SignElementInDoc(d.Root(), randSigSpec(r, signer, true, false)); err != nil {
+			cs.Inconclusive("simulator-error")
+			continue
+		}
+		doc := sim.DocString(d)
+		cs.Desc("tops=%d host=%d nested=%d ownSig=%v signer=%s", len(tops), host, nestedN, ownSig, signer.Key.Name)
+		cs.Input([]byte(doc))
+		sp, _, _ := NewSP(w.Now, signer)
+		sp.AllowMissingAttributes = true
+		var resp *types.Response
+		var verr error
+		pv, stack := mon.Guard(func() { resp, verr = sp.ValidateEncodedResponse(sim.Encode(doc, sim.RawLevel)) })
+		if pv != nil {
+			cs.Violation("panic", "panic: %v\n%s", pv, trunc(stack, 1000))
+			continue
+		}
+		if verr != nil {
+			cs.Outcome("rejected")
+			continue // Advice content is outside what the properties promise to accept
+		}
+		cs.Nontrivial(fmt.Sprintf("%x", mon.Hash64(doc)))
+		cs.Outcome("accepted")
+		if len(resp.Assertions) != len(tops) {
+			cs.Violation("assertion-count", "%d top-level assertions were signed, %d returned", len(tops), len(resp.Assertions))
+			continue
+		}
+		for i := range resp.Assertions {
+			if resp.Assertions[i].ID != tops[i].SelectAttrValue("ID", "") {
+				cs.Violation("assertion-order-or-identity", "returned assertion %d has ID %s, the signed Response has %s there", i, resp.Assertions[i].ID, tops[i].SelectAttrValue("ID", ""))
+				break
+			}
+			if resp.Assertions[i].SignatureValidated && !ownSig[i] {
+				cs.Violation("assertion-flag-overstated", "top-level assertion %d (ID %s) is marked validated although that element carries no signature of its own (own signatures: %v, nested signed assertions sit in assertion %d)", i, resp.Assertions[i].ID, ownSig, host)
+				break
+			}
 		}
 	}
 
